@@ -26,6 +26,39 @@ CLAIMED = {
                 "3-D N<=60, 4-D N<=17; thorough 3-D N<=200, 4-D N<=60.",
         "design_ref": "DESIGN.md section 4, C08",
     },
+    "C14": {
+        "engine": "pipeline",
+        "technique": "deterministic simulation: workflow stages (grid writer, fake energy peer, SqRA, decomposition) as "
+                     "tasks over a simulator-owned scratch directory with crash/re-run, torn/lost writes, stale "
+                     "directories, warm/cold processes, global-RNG faults and seeded ARPACK start vectors; invariants "
+                     "on the files left behind",
+        "text": "Seeded exploration of composed runs of writer -> files -> reader -> rate matrix -> solver under fault "
+                "schedules. Judged on the files the run leaves: per-pair detailed balance w.r.t. V*exp(-E/RT) (rel. "
+                "1e-9), Q pattern == saved adjacency, grid files == an uninterrupted run (bitwise, incl. entry order), "
+                "eigenvalues real/sorted/matching a dense solver, largest zero, left eigenvector proportional to "
+                "V*exp(-E/RT) for every simulated start vector. Sampling, not proof. Findings F12 and F13 are printed "
+                "as KNOWN-FINDING.",
+        "note": "Trusted: numpy dense eigvals as the reference solver, the oracle code in sim/pipeline.py, the fake "
+                "peers' file formats. Snakemake is a stub (stage drivers mirror the rule bodies). Eigen-oracle only "
+                "where well conditioned (sigma<=3 kJ/mol, T>=250 K, 8<=n<=cap, k<=n-2; eigenvector clause needs a "
+                "spectral gap). Disk faults at file granularity between operations.",
+        "design_ref": "DESIGN.md section 4, C14",
+    },
+    "C20": {
+        "engine": "pipeline",
+        "technique": "deterministic simulation (weak form): seeded write/overwrite/crash/re-run histories of grid files "
+                     "and fake-GROMACS energy tables on a scratch directory, read back by warm or cold-interpreter "
+                     "readers, bitwise comparison with the writer's in-memory values and the written tokens",
+        "text": "Mostly a seeded round trip, said plainly: the simulator adds process separation (reader in a fresh "
+                "interpreter), overwrite and crash/re-run histories on re-used paths, and an in-process fake peer for "
+                "gmx energy. Loaded arrays/sparse matrices must equal the writer's in-memory values bit for bit "
+                "(format and index arrays included); energy frames must have one row per data line in order, columns "
+                "Time + legends, values == float(token); csv round trips must be identical.",
+        "note": "Trusted: numpy/scipy/pandas file formats, Python float() as the reference parser. No byte-level "
+                "corruption is injected against the oracle (no checksum is promised). Legends distinct and without "
+                "quotes.",
+        "design_ref": "DESIGN.md section 4, C20",
+    },
     "C18": {
         "engine": "session",
         "technique": "deterministic simulation: seeded subdivision histories of 1-2 interleaved polytopes with "
